@@ -105,9 +105,16 @@ def find_in(root, nodes):
 ORDER = {"Info": 0, "Warning": 1, "Error": 2}
 
 
+_EV_ENV = {}
+
+
 def _ev(e, cat):
     """value of a boolean expression of filter_by_file for a report WITHOUT primary labels of category `cat`:
     True / False / None (unknown)"""
+    if _EV_ENV:
+        from pathcond import _subst
+
+        e = _subst(e, _EV_ENV)
     e = strip(e)
     k = e["k"]
     t = render(e).replace(" ", "")
@@ -160,6 +167,11 @@ def filter_tolerance():
     if fn is None:
         return None, "filter_by_file not found"
     desc = render(fn["body"])[:300]
+    # immutable simple lets of the function stand for their definitions
+    _EV_ENV.clear()
+    for n in walk(fn["body"]):
+        if n["k"] == "Local" and n["pat"]["k"] == "PIdent" and n["init"] is not None and not n["pat"].get("mut") and n.get("else") is None:
+            _EV_ENV[n["pat"]["name"]] = n["init"]
     passes = set()
     unknown = False
     for cat in ORDER:
